@@ -79,6 +79,21 @@ fn derive_input(c: &SimpCase) -> Result<DS, String> {
             Ok(None) => return Err("no pseudo-toroidal cover".into()),
             Err(_) => return Err("pseudo-toroidal cover invalid (C15's subject)".into()),
         },
+        "ptc2" => {
+            // pseudo-toroidal cover of a 2-sheeted cover of the base (what the euclidicity test feeds in
+            // when it is asked about a cover); a cover of a euclidean symbol is euclidean
+            let list = guarded(|| covers(&x.to_partial(), 2)).map_err(|_| "covers panicked (C05's subject)".to_string())?;
+            let good: Vec<DS> = list.iter().map(|y| DS::from_dsym(y)).filter(|y| y.size == 2 * x.size && y.is_connected() && check_projection(x, y).is_ok()).collect();
+            if good.is_empty() {
+                return Err("no 2-sheeted cover".into());
+            }
+            let y = &good[pick_index(c.pick, good.len())];
+            match ptc(y, false) {
+                Ok(Some((_, z))) => z,
+                Ok(None) => return Err("no pseudo-toroidal cover".into()),
+                Err(_) => return Err("pseudo-toroidal cover invalid (C15's subject)".into()),
+            }
+        }
         "universal" => {
             let fg = own_fundamental_group(x);
             match todd_coxeter(fg.pres.nr_gens, &fg.pres.rels, &[], 400) {
@@ -118,7 +133,7 @@ fn check_simp(c: &SimpCase, obs: &mut Obs) -> Result<(), String> {
             return Ok(());
         }
     };
-    let promised = c.source == "ptc";
+    let promised = c.source == "ptc" || c.source == "ptc2";
     let perm = perm_from_swaps(input.size, &c.swaps);
     let renum = input.renumbered(&perm);
     // the routine under test, on both numberings; on the inputs the euclidicity test feeds in it must not panic
@@ -220,6 +235,13 @@ pub fn run(ctx: &mut Ctx) {
     }
     for (k, c) in corpus_cases(t.pick(4, 6)).into_iter().enumerate() {
         cases.push(SimpCase { base: c.ds, source: "ptc".into(), k: 0, pick: 0, swaps: sw(k), known: c.known });
+    }
+    // pseudo-toroidal covers of 2-sheeted covers of the known-euclidean corpus
+    let stride = t.pick(6, 2);
+    for (k, c) in corpus_cases(t.pick(4, 6)).into_iter().enumerate() {
+        if c.known == "literature corpus" || k % stride == 0 {
+            cases.push(SimpCase { base: c.ds, source: "ptc2".into(), k: 2, pick: (k as u32).wrapping_mul(0x9e37_79b9), swaps: sw(k + 1), known: format!("2-sheeted cover of: {}", c.known) });
+        }
     }
     // class (B): branching up to 5
     for n in 1..=t.pick(2, 3) {
